@@ -22,4 +22,6 @@ def run(P, R, L):
     K.pair13_block_indexed(P, R, L)
     R.clause("PAIR-12", "the two-level iterator's (data block iterator, loaded block handle) pair is always written together")
     K.pair12_file_level_pairs(P, R, L, only={"tables::table::TwoLevelIterator"})
+    R.clause("OWN-10", "every open table has its own block-cache partition id and caches blocks under (id, block offset)")
+    K.own10_cache_partitions(P, R, L)
     R.not_decided += ["prefix compression, separators, seek positions, iteration order (computed bytes)"]
